@@ -116,6 +116,23 @@ def lookup(table, base, n, used_shapes=None, _hoisted=False):
         if len(ep) != 3 or ep[0] != parts[0] or ep[1] != parts[1] or id(e) in used_shapes:
             continue
         esh, old_names = shape(ep[2])
+        if esh != sh and esh.endswith("\u2026") and sh.endswith("\u2026"):
+            # both texts were cut at the display width: a longer local label (`cci~2` for `cci`) moves the cut - compare the common part
+            m_ = min(len(esh), len(sh)) - 6
+            if m_ > 60 and esh[:m_] == sh[:m_]:
+                k_ = min(esh[:m_].count("$"), sh[:m_].count("$"))
+                if old_names[:k_] != cur_names[:k_] or True:
+                    esh, sh_cmp, old_names, cur2 = sh, sh, old_names[:k_], cur_names[:k_]
+                    if len(old_names) == len(cur2) and old_names != cur2:
+                        mapping = {}
+                        okm = all(mapping.setdefault(o, c) == c for o, c in zip(old_names, cur2))
+                        if okm:
+                            used_shapes.add(id(e))
+                            e2 = dict(e)
+                            e2["requires"] = rename_requires(e.get("requires", []), mapping)
+                            e2["renamed"] = mapping
+                            return e2
+                    continue
         if esh == sh and len(old_names) == len(cur_names) and old_names != cur_names:
             mapping = {}
             okm = True
